@@ -12,7 +12,7 @@ EXPLANATION = (
     "R01c every value written to an outgoing link is the value removed from the source (writer/reader agreement inside resolve_outflows); "
     "R01d update() reads step ti-1, writes step ti, subtracts the cached outflow once and adds every inlink once; "
     "R01e junction balance passes on all inflow, residual = inflow - others, junctions are balanced every step in flow order; "
-    "R01f loop order advance -> update_comps -> update_pars -> update_links; R01g assigning a total to a timed compartment spreads it over the rows by dividing by exactly the number of rows, and its size is the sum over rows (the initial junction flush adds to downstream compartments through these two accessors).  The arithmetic identity itself (1e-9 balance) is a runtime quantity and is not decided."
+    "R01f loop order advance -> update_comps -> update_pars -> update_links; R01h no local bound to a *slice* of stock/flow storage (a numpy view) is modified in place; R01g assigning a total to a timed compartment spreads it over the rows by dividing by exactly the number of rows, and its size is the sum over rows (the initial junction flush adds to downstream compartments through these two accessors).  The arithmetic identity itself (1e-9 balance) is a runtime quantity and is not decided."
 )
 
 STORAGE = {"vals", "_vals"}
@@ -30,6 +30,7 @@ def run(ctx):
     ctx.each(r01e, ctx, repo, T)
     ctx.each(r01f, ctx, repo, T)
     ctx.each(r01g, ctx, repo, T)
+    ctx.each(r01h, ctx, repo, T)
 
 
 # ---------------------------------------------------------------------------------------------- R01a
@@ -599,3 +600,40 @@ def r01g(ctx, repo, T):
 
         ok = bool(rets) and all(isinstance(r.value, ast.Call) and isinstance(r.value.func, ast.Attribute) and r.value.func.attr == "sum" and whole_rows(r.value.func.value) and any(k.arg == "axis" and isinstance(k.value, ast.Constant) and k.value.value == 0 for k in r.value.keywords) for r in rets)
         ctx.check(ok, "R01g", fi, rets[0] if rets else fi.node, "%s is the sum over the row axis" % q, "%s does not return the sum over all rows of the keyring: the reported size/flow differs from the people held" % q)
+
+
+# ---------------------------------------------------------------------------------------------- R01h
+def r01h(ctx, repo, T):
+    ctx.rule("R01h", "view aliasing: a local bound to a slice of .vals/._vals storage (a numpy view) is never the target of an augmented assignment or an out= argument - that would rewrite recorded stocks/flows behind the bookkeeping")
+    n = 0
+    for fi in repo.module("model").all_functions():
+        rd = None
+        for s_ in own_nodes(fi.node):
+            if not (isinstance(s_, ast.Assign) and len(s_.targets) == 1 and isinstance(s_.targets[0], ast.Name) and isinstance(s_.value, ast.Subscript)):
+                continue
+            v = s_.value
+            if not (isinstance(v.value, ast.Attribute) and v.value.attr in STORAGE):
+                continue
+            idx = v.slice.elts if isinstance(v.slice, ast.Tuple) else [v.slice]
+            if not any(isinstance(i, ast.Slice) for i in idx):
+                continue  # an element read gives a scalar, not a view
+            n += 1
+            name = s_.targets[0].id
+            if rd is None:
+                rd = K.rdefs(repo, fi)
+            hit = None
+            for a in own_nodes(fi.node):
+                is_aug = isinstance(a, ast.AugAssign) and isinstance(a.target, ast.Name) and a.target.id == name
+                is_sub_store = isinstance(a, (ast.Assign, ast.AugAssign)) and any(isinstance(t_, ast.Subscript) and astq.is_name(astq.strip_subs(t_), name) for t_ in (a.targets if isinstance(a, ast.Assign) else [a.target]))
+                is_out = isinstance(a, ast.Call) and any(k.arg == "out" and astq.is_name(k.value, name) for k in a.keywords)
+                if is_aug or is_sub_store or is_out:
+                    st = enclosing_stmt(a) if not isinstance(a, ast.stmt) else a
+                    ds = rd.reaching_at_stmt(st, name)
+                    if any(d in rd.cfg.ids(s_) for d in ds if d is not None):
+                        hit = st
+                        break
+            if hit is not None:
+                ctx.fail("R01h", fi, hit, "`%s` is a view of `%s` (bound at line %d) and `%s` modifies it in place: the recorded value in that storage is rewritten, so stocks no longer change by the recorded flows" % (name, ast.unparse(v), s_.lineno, norm(hit)[:60]))
+            else:
+                ctx.ok("R01h", fi, "view `%s = %s` is only read" % (name, ast.unparse(v)[:40]), s_)
+    ctx.ok("R01h", "atomica/model.py", "%d view bindings of stock/flow storage examined" % n)
